@@ -294,6 +294,19 @@ def _run_module(spec, res, tag_extra=""):
               M.null_ray_exp_out(t0, xi, yi, zi), expansion(xi, yi, zi, ex_in), 1e-9)
         close(res, f"{name}.Kretschmann inside the horizon", tbucket,
               M.Kretschmann(t0, xi, yi, zi), ex_in['Kretschmann'], 1e-9)
+        # numeric and symbolic lapse are the same function there too (it is
+        # negative behind the throat; only alpha^2 enters the 4-metric)
+        import sympy as sp
+        ts, xs_, ys_, zs_ = sp.symbols('t x y z', real=True)
+        try:
+            a_sym = M.alpha(ts, xs_, ys_, zs_, analytical=True)
+            fa = sp.lambdify((ts, xs_, ys_, zs_), a_sym, 'numpy')
+            close(res, f"{name}.alpha numeric=symbolic inside the horizon", tbucket,
+                  M.alpha(t0, xi, yi, zi), np.asarray(fa(t0, xi, yi, zi), float) + 0 * xi, 1e-12)
+            close(res, f"{name}.alpha numeric=symbolic", tbucket,
+                  M.alpha(t0, x, y, z), np.asarray(fa(t0, x, y, z), float) + 0 * x, 1e-12)
+        except TypeError:
+            pass
     if name == 'Conformally_flat':
         close(res, f"{name}.st_RicciS", tbucket, M.st_RicciS(x), ex['st_RicciS'], 1e-9,
               scale=curv)
